@@ -135,45 +135,53 @@ def self_test(ctx):
     base = drv.events
 
     def find(pred):
-        return next(i for i, ev in enumerate(base) if pred(ev))
+        return next((i for i, ev in enumerate(base) if pred(ev)), None)
+
+    def corrupt(what, pred, change):
+        i = find(pred)
+        if i is None:       # the tree under test did not even get there
+            return
+        t = copy.deepcopy(base)
+        change(t[i])
+        muts.append((what, t))
 
     muts = []
-    t = copy.deepcopy(base)
-    i = find(lambda ev: ev["op"] == "Get" and ev["name"] == "B" and
-             ev["lo"] == "F" and ev["iq"] == "T" and ev["ico"] == "T" and
-             not ev["hp"])
-    t[i]["cls"]["el"]["p"]["origin"] = "B"
-    muts.append(("class_origin of an overriding property", t))
-    t = copy.deepcopy(base)
-    i = find(lambda ev: ev["op"] == "EnumClassNames" and ev["name"] == "A"
-             and ev["deep"] and len(ev["names"]) == 3)
-    t[i]["names"] = t[i]["names"][:-1]
-    muts.append(("class missing from EnumerateClassNames", t))
-    t = copy.deepcopy(base)
-    i = find(lambda ev: ev["op"] == "EnumInst" and ev["name"] == "D")
-    t[i]["insts"] = [["A", 1]]
-    muts.append(("foreign instance in EnumerateInstances", t))
-    t = copy.deepcopy(base)
-    i = find(lambda ev: ev["op"] == "Get" and ev["ico"] == "F" and
-             ev["cls"]["el"]["k"]["present"])
-    t[i]["cls"]["el"]["k"]["origin"] = "A"
-    muts.append(("class_origin although IncludeClassOrigin=False", t))
-    t = copy.deepcopy(base)
-    i = find(lambda ev: ev["op"] == "Delete")
-    t[i]["after"] = t[i]["after"] + ["C"]
-    muts.append(("subclass survives DeleteClass", t))
+    corrupt("class_origin of an overriding property",
+            lambda ev: ev["op"] == "Get" and ev["name"] == "B" and
+            ev["lo"] == "F" and ev["iq"] == "T" and ev["ico"] == "T" and
+            not ev["hp"] and ev["ok"],
+            lambda ev: ev["cls"]["el"]["p"].update(origin="B"))
+    corrupt("class missing from EnumerateClassNames",
+            lambda ev: ev["op"] == "EnumClassNames" and ev["name"] == "A"
+            and ev["deep"] and len(ev["names"]) == 3,
+            lambda ev: ev.update(names=ev["names"][:-1]))
+    corrupt("foreign instance in EnumerateInstances",
+            lambda ev: ev["op"] == "EnumInst" and ev["name"] == "D",
+            lambda ev: ev.update(insts=[["A", 1]]))
+    corrupt("class_origin although IncludeClassOrigin=False",
+            lambda ev: ev["op"] == "Get" and ev["ico"] == "F" and ev["ok"]
+            and ev["cls"]["el"]["k"]["present"],
+            lambda ev: ev["cls"]["el"]["k"].update(origin="A"))
+    corrupt("subclass survives DeleteClass",
+            lambda ev: ev["op"] == "Delete",
+            lambda ev: ev.update(after=ev["after"] + ["C"]))
     vs = ctx.validate_traces("ClassModelTrace", "ClassModelTrace.cfg",
                              [base] + [m[1] for m in muts],
-                             label="self-test: canned history + 5 corrupted "
-                             "copies")
+                             label="self-test: canned history + corrupted "
+                             "copies (one field each)")
     b = set(vs[0].get("clauses", []))
+    clean = not [c for c in b if "|SOFT:" not in c]
     res = []
     for (what, _), v in zip(muts, vs[1:]):
         extra = set(v.get("clauses", [])) - b
         if not extra:
-            raise vlib.MachineryError(
-                "corrupted trace not rejected: %s" % what)
+            if clean:
+                raise vlib.MachineryError(
+                    "corrupted trace not rejected: %s" % what)
+            continue
         res.append("%s -> %s" % (what, sorted(extra)[0].split("|", 1)[1]))
+    if clean and len(muts) < 5:
+        raise vlib.MachineryError("self-test history incomplete")
     ctx.extra["corrupted_traces_rejected"] = res
     ctx.traces -= len(muts)          # corrupted copies are not impl traces
     ctx.events -= sum(len(m[1]) for m in muts)
